@@ -24,6 +24,8 @@ def dispatch (fam : String) : Option (List String → String → Option Res) :=
   | "supply" => some runSupply
   | "nohalt" => some runNoHalt
   | "oracle" => some runOracle
+  | "oracle7" => some runOracle7
+  | "oracle8" => some runOracle8
   | "escrow" => some runEscrow
   | "tally" => some runTally
   | "ratio" => some runRatio
